@@ -387,6 +387,11 @@ func (a *align) RemoveCharacterSites(c []uint8, cutoff float64, ends bool, ignor
 		cutoff = 0
 	}
 
+	if a.Length() < 0 {
+		// Empty alignment: nothing to remove
+		return 0, 0, kept, rm
+	}
+
 	toremove := make([]int, 0, a.Length())
 	// To remove only positions with this character at start and ends positions
 	firstcontinuous := -1
@@ -480,10 +485,15 @@ func (a *align) RemoveCharacterSites(c []uint8, cutoff float64, ends bool, ignor
 // Returns the number of consecutive removed sites at start and end of alignment and the indexes of the
 // remaining positions
 func (a *align) RemoveMajorityCharacterSites(cutoff float64, ends, ignoreGaps, ignoreNs bool) (first, last int, kept, rm []int) {
-	_, occur, total := a.MaxCharStats(ignoreGaps, ignoreNs)
-
 	kept = make([]int, 0)
 	rm = make([]int, 0)
+
+	if a.Length() < 0 {
+		// Empty alignment: nothing to remove
+		return 0, 0, kept, rm
+	}
+
+	_, occur, total := a.MaxCharStats(ignoreGaps, ignoreNs)
 
 	length := a.Length()
 	toremove := make([]int, 0, 10)
